@@ -5,6 +5,7 @@ import JominiModel.Spec.WriterFlat
 import JominiModel.Proofs.WriterFlat
 import JominiModel.Spec.WriterNested
 import JominiModel.Proofs.WriterNested
+import JominiModel.Proofs.WriterParse
 /-
 C15 — Well-formed sequences of writer calls parse back to exactly what was written.
 Only property theorems live here; helper lemmas are in `Proofs/Writer.lean`, reference
@@ -308,6 +309,33 @@ example : (run (ncallsF (.cons (.unq [97]) none
     [97, 61, 123, 10, 9, 98, 32, 60, 32, 34, 120, 34, 10, 9, 99, 61, 123, 10, 9, 9, 100, 61, 101, 10, 9, 125, 10, 125] := by
   decide +kernel
 
+/-- End-to-end round trip for nested objects (writer model → tape parser model): for every call
+list that writes root fields whose values are scalars or non-empty objects nested to any depth
+(`write_object_start … write_end`, implicit or explicit operators, `write_unquoted` /
+`write_quoted` with arbitrary quoted payloads), every indent factor and every indent byte the
+parser treats as blank (space, tab, …), `TextTape.parse` of the written bytes succeeds and
+yields exactly the described tape: keys, operators, scalars with their quotedness, and for
+every object an `Object{end}` token whose `end` is the index of its `End` token, which points
+back (`etoksF 0 fs`), in order, nothing else.  Hypotheses: the unquoted payloads are scalars
+of the text format; the text does not begin with the three BOM bytes. -/
+theorem C15_parse_back_nested (fs : NFields) (c : UInt8) (f : Nat)
+    (hc : TextTape.isBlank c = true) (hv : ValidF fs)
+    (hb : TextTape.hasBom (run (ncallsF fs) (State.init c f)).1.out = false) :
+    ∃ T, TextTape.parse (run (ncallsF fs) (State.init c f)).1.out = .ok T false ∧
+      T.map TextTape.Tok.erase = etoksF 0 fs := by
+  rw [C15_lexemes_nested] at hb ⊢
+  exact WriterParse.parse_textRoot c f hc fs hv hb
+
+/-- `a={ b<"x" c={ d=e } }`, tab × 1: the tape computed by the two models -/
+example : TextTape.parse (run (ncallsF (.cons (.unq [97]) none
+      (.obj (.unq [98]) (some .lt) (.scal (.quo [120]))
+        (.cons (.unq [99]) none (.obj (.unq [100]) none (.scal (.unq [101])) .nil) .nil)) .nil))
+    (State.init 9 1)).1.out =
+    .ok [.unquoted ⟨28, [97]⟩, .object 10 false, .unquoted ⟨23, [98]⟩, .operator .lt, .quoted ⟨18, [120]⟩,
+         .unquoted ⟨14, [99]⟩, .object 9 false, .unquoted ⟨8, [100]⟩, .unquoted ⟨6, [101]⟩, .endTok 6,
+         .endTok 1] false := by
+  decide +kernel
+
 /-
 Growth theorem, NOT proved in general (full statement kept; `C15_lexemes_partial` is its flat instance):
 
@@ -319,8 +347,11 @@ Growth theorem, NOT proved in general (full statement kept; `C15_lexemes_partial
   `TextLex` the lexer of the text format and `lexemesOf` the lexeme list the calls describe; and
   hence, with C01's `C01_faithful`, `parse (run cs _).out = tapeOf (docOf cs)`.
 
-  Missing: a lexer/parser model (owned by the text-tape slice) and the induction over the
-  grammar.  Until then the clause is decided on the real code: the harness re-parses the
+  Proved so far: flat documents (`C15_lexemes_flat`, `C15_parse_back_flat`) and nested objects
+  to any depth (`C15_lexemes_nested`, `C15_parse_back_nested`).  Missing: arrays
+  (`write_array_start`, and the object/array resolution of `write_start`), empty containers,
+  headers / rgb, the typed scalar calls (integers, dates, booleans: their text is modelled, what
+  is missing is only that it is a valid unquoted scalar) and `write_binary` forwarding.  Until then the clause is decided on the real code: the harness re-parses the
   output of every well-formed call list with `TextTape::from_slice` and compares it with an
   independent transcription of the described document (oracle kinds `wf-parse-back`,
   `wf-output-does-not-parse`, `wf-state`).
